@@ -156,6 +156,13 @@ func ruleActiveFlushed(r *Run, rule string, k *storeKind) {
 				if sl, okSl := st.Val.(*ssa.Slice); okSl && sl.Low == nil && c.S(sl.High) == "(len(P0.queue)-c(1))" {
 					trunc = in
 				}
+				// q = slices.Delete(q, i, i+1): shift and truncation in one (the library's own copy-down)
+				if dc, okD := st.Val.(*ssa.Call); okD && strings.HasPrefix(calleeName(dc.Common()), "slices.Delete") && len(dc.Call.Args) == 3 && c.S(dc.Call.Args[0]) == "P0.queue" {
+					if bo, okB := dc.Call.Args[2].(*ssa.BinOp); okB && bo.Op == token.ADD && bo.X == dc.Call.Args[1] && c.S(bo.Y) == "c(1)" {
+						shift, trunc = dc, in
+						appendIdx = dc.Call.Args[1]
+					}
+				}
 				// q = append(q[:i], q[i+1:]...): shift and truncation in one
 				if ac, okA := st.Val.(*ssa.Call); okA {
 					if bi, isB := ac.Call.Value.(*ssa.Builtin); isB && bi.Name() == "append" && len(ac.Call.Args) == 2 {
